@@ -384,6 +384,7 @@ fn replay(path: &str) -> i32 {
                 "C01" => props_sched::c01_families(tier),
                 "C05" => props_sched::c05_families(tier),
                 "C08" => props_sched::c08_families(tier),
+                "C06" => props_sched::c06_families(tier),
                 _ => vec![],
             };
             let fam = match fams.iter().find(|f| Some(f.name.as_str()) == v["family"].as_str()) {
@@ -495,7 +496,12 @@ fn main() {
                 }
                 "C16" => check_sched::check("C16", tier, props_sched::c16_families(tier), &["deadlock", "livelock"], nthreads()),
                 "C14c" => check_sched::check("C14", tier, props_sched::c14_families(tier), &["over-limit", "over-limit-after-race", "over-limit-after-quiet-race", "deadlock", "livelock", "no-panic"], nthreads()),
-                "C06" => check_seq("C06", tier),
+                "C06" => {
+                    let a = check_seq("C06", tier);
+                    let b = check_sched::check("C06", tier, props_sched::c06_families(tier), &["linearizable", "no-panic", "deadlock", "livelock"], nthreads());
+                    let t = a.tier.clone();
+                    report::merge("C06", &t, vec![("sequential_histories", a), ("conditional_store_vs_concurrent_plain_command_all_schedules", b)])
+                }
                 "C07" => {
                     let a = check_seq("C07", tier);
                     let b = opaque_differential("C07", tier);
